@@ -40,6 +40,12 @@ SPACES = [
      ["norm", "choice", [["batch", "layer", "none"]]], ["size", "ordinal", [["xs", "s", "m", "l"]]]],
 ]
 
+# (grace_period, reduction_factor, max_t) -> rung levels; grouped by the NUMBER of rung levels (values differ)
+RUNG_LAYOUTS = {
+    2: [(1, 3, 9), (2, 2, 8), (1, 2, 4), (1, 4, 16), (3, 3, 27)],
+    3: [(1, 3, 27), (2, 2, 16), (1, 2, 8), (3, 3, 81), (1, 4, 64)],
+}
+
 MODEL_FREE_VARIANTS = [
     ("fifo", {"searcher": "random"}, "fifo_random"),
     ("fifo", {"searcher": "grid"}, "fifo_grid"),
@@ -134,6 +140,21 @@ def gen_sched_case(rng, variant, gp=False, profile=False, rich=False):
                 workers=rng.choice([1, 2, 3, 4]), steps=rng.choice([18, 30] if gp else [25, 60, 120]),
                 interleave=(not gp), other_kinds=OTHER_KINDS if not gp else [], profile=profile,
                 ties=rng.random() < 0.3, p_fail=rng.choice([0.0, 0.05, 0.15]))
+    layout_other = None
+    if kind == "hyperband" and not gp and p.get("type") != "pasha" and rng.random() < 0.45:
+        # several brackets; an unrelated instance gets the same number of brackets and of rung levels but
+        # different level VALUES (or, less often, the same values and another count); enough trials that the
+        # seeded bracket draws matter
+        nlev = rng.choice([2, 3])
+        la, lb = rng.sample(RUNG_LAYOUTS[nlev], 2)
+        if rng.random() < 0.2:
+            lb = rng.choice(RUNG_LAYOUTS[5 - nlev])
+        p["grace"], p["rf"], p["max_t"] = la
+        p["brackets"] = rng.randint(2, nlev)
+        layout_other = lb
+        steps_override = rng.choice([120, 160])
+    else:
+        steps_override = None
     if not gp:
         # unrelated instances of the same class with explicit non-default nested options (see c11_worker.pollute)
         pol = []
@@ -149,8 +170,17 @@ def gen_sched_case(rng, variant, gp=False, profile=False, rich=False):
                 pp["rung_system_kwargs"] = {"num_threshold_candidates": rng.choice([1, 2, 3])}
                 if pp["type"] == "cost_promotion":
                     pp["type"] = "promotion"
+            if layout_other is not None:
+                pp["grace"], pp["rf"], pp["max_t"] = layout_other
+                pp["brackets"] = min(p["brackets"], 2 if layout_other in RUNG_LAYOUTS[2] else 3)
+                if rng.random() < 0.7:
+                    pp["type"] = p["type"] if p["type"] != "cost_promotion" else "promotion"
             pol.append([kind, pp])
         case["polluters"] = pol
+        if steps_override:
+            case["steps"] = steps_override
+            case["workers"] = rng.choice([2, 3, 4])
+            case["layout"] = "multi-bracket, unrelated instance with other rung level values"
         if kind == "hyperband" and str(p.get("type", "")).startswith("rush"):
             if rng.random() < 0.7:
                 case["loss_profile"] = "rush"
@@ -304,6 +334,8 @@ def judge(ctx, case, ra, rb, hashseeds, facts=None, funcmap=None):
         ctx.h("options", "unrelated instances with explicit nested options: %d" % len(case.get("polluters") or []))
         if ra.get("shared_restrict"):
             ctx.h("options", "restrict_configurations list object shared with unrelated instances")
+        if case.get("layout"):
+            ctx.h("options", case["layout"])
         if case.get("loss_profile"):
             ctx.h("options", "loss profile separating ASHA from RUSH")
         ctx.h("trace_len", min(len(tr) // 20 * 20, 120))
